@@ -63,6 +63,12 @@ def install_raw_services():
     from bacpypes import apdu as A
     from bacpypes.errors import RejectException, AbortException
 
+    class _Rej(RejectException):
+        rejectReason = 'other'
+
+    class _Abt(AbortException):
+        abortReason = 'other'
+
     class RawRequest(A.ConfirmedRequestPDU):
         serviceChoice = RAW_OK
 
@@ -70,7 +76,7 @@ def install_raw_services():
         serviceChoice = RAW_REJECT
 
         def decode(self, pdu):
-            e = RejectException()
+            e = _Rej()
             e.rejectReason = pdu.pduData[0] if pdu.pduData else 0
             raise e
 
@@ -78,7 +84,7 @@ def install_raw_services():
         serviceChoice = RAW_ABORT
 
         def decode(self, pdu):
-            e = AbortException()
+            e = _Abt()
             e.abortReason = pdu.pduData[0] if pdu.pduData else 0
             raise e
 
@@ -303,6 +309,11 @@ class Lock:
         d = bytes(apdu.pduData)
         return {"h": hdr_of(apdu), "n": len(d), "d": fnv64(d)}
 
+    def _ctx_json(self, ctx):
+        """digest of a segmentation context: type, invoke ID, service, payload"""
+        d = bytes(ctx.pduData)
+        return [int(ctx.apduType), _n(ctx.apduInvokeID), _n(ctx.apduService), len(d), fnv64(d)]
+
     def _down(self, pdu):
         from bacpypes.apdu import APDU
         from bacpypes.pdu import PDU
@@ -346,7 +357,7 @@ class Lock:
                 z(tr.lastSequenceNumber), z(tr.initialSequenceNumber), _n(tr.actualWindowSize),
                 z(tr.segmentSize), z(tr.segmentCount), z(tr.maxApduLengthAccepted),
                 _n(tr.maxSegmentsAccepted), 1 if getattr(tr, "segmented_response_accepted", False) else 0,
-                timer, None if ctx is None else self._apdu_json(ctx)]
+                timer, None if ctx is None else self._ctx_json(ctx)]
 
     def snapshot(self):
         return {"cl": [self._digest(t) for t in self.smap.clientTransactions],
